@@ -164,6 +164,7 @@ class M2Executor(Executor):
             s.add(a)
         import time as _t
         t0 = _t.time()
+        smt.beat(60.0)
         r = s.check()
         return not (r == z3.unsat and _t.time() - t0 < 1.2)
 
